@@ -41,6 +41,7 @@ def run(P, R, tier):
     R.rule("C09.dual", "*_msg overrides pass the unmodified text to the string sink (under its switch) and the file sink; base call unconditional", minimum=10)
     for q, sw, on, strm, base, ost in STREAMS:
         f = P.one(q)
+        C05.set_aliases(f)
         where = dict(file=f["file"], line=f["line"], function=f["q"])
         p = f["pnames"][0]
         st = [s for s in f["body"][2] if T.is_node(s)]
@@ -69,6 +70,7 @@ def run(P, R, tier):
     for q, strsw, reporter, suffix in (("IPhreeqc::error_msg", "IPhreeqc::ErrorStringOn", "IPhreeqc::ErrorReporter", False),
                                        ("IPhreeqc::warning_msg", "IPhreeqc::WarningStringOn", "IPhreeqc::WarningReporter", True)):
         f = P.one(q)
+        C05.set_aliases(f)
         where = dict(file=f["file"], line=f["line"], function=f["q"])
         p = f["pnames"][0]
         st = [s for s in f["body"][2] if T.is_node(s)]
@@ -137,6 +139,7 @@ def run(P, R, tier):
 
 def check_base(P, R, base, ost, on):
     g = P.one(base)
+    C05.set_aliases(g)
     p = g["pnames"][0]
     st = [s for s in g["body"][2] if T.is_node(s)]
     ok = False
